@@ -40,7 +40,44 @@ def main():
         return 1
     open(path, 'w').write(new)
     print('table rewritten: %d rows' % n)
+    refactor_table(path)
     return 0
+
+
+def refactor_table(path):
+    rp = os.path.join(VERIF, 'refactors', 'RESULTS.json')
+    if not os.path.exists(rp):
+        return
+    res = json.load(open(rp))
+    rows = ['| id | what was refactored (abridged) | checks that still pass | report `no-failing-input-found` | report a failing input (false alarm) |',
+            '|---|---|---|---|---|']
+    tot_false = 0
+    accepted = 0
+    for rid in sorted(res):
+        r = res[rid]
+        ok, nf, bad = [], [], []
+        for c, cr in sorted(r.get('checks', {}).items()):
+            if cr['rc'] == 0:
+                ok.append(c)
+            elif all('no-failing-input-found' in v for v in cr['violations']) and cr['violations']:
+                nf.append(c)
+            else:
+                bad.append(c)
+        tot_false += len(bad)
+        accepted += (not nf and not bad)
+        summ = r.get('summary', '').replace('|', '/').replace('\n', ' ')[:140]
+        rows.append('| %s | %s | %d | %s | %s |' % (rid, summ, len(ok), ', '.join(nf) or '-', ', '.join(bad) or '-'))
+    head = ('%d behaviour-preserving refactorings (byte-identical transcripts); accepted by all 18 checks with the proofs re-established: %d; '
+            'reports naming a failing input (there is none: these would be false alarms): %d.\n\n' % (len(res), accepted, tot_false))
+    block = head + '\n'.join(rows) + '\n'
+    text = open(path).read()
+    if '<!-- BEGIN refactor table -->' not in text:
+        print('refactor markers not found')
+        return
+    new = re.sub(r'(<!-- BEGIN refactor table -->\n).*?(<!-- END refactor table -->)', lambda m: m.group(1) + block + m.group(2),
+                 text, flags=re.S)
+    open(path, 'w').write(new)
+    print('refactor table rewritten: %d rows' % len(res))
 
 
 if __name__ == '__main__':
